@@ -129,16 +129,24 @@ pub async fn serve(
             break;
         }
 
-        // Compact spawn frames
-        if frame.topic.ends_with(".spawn") || frame.topic.ends_with(".spawn.error") {
-            if let Some(topic) = frame
-                .topic
-                .strip_suffix(".spawn.error")
-                .or_else(|| frame.topic.strip_suffix(".spawn"))
+        // Compact spawn frames (a generator name is scoped to its context)
+        if let Some(topic) = frame.topic.strip_suffix(".spawn.error") {
+            // an error cancels the spawn it names, not a later one (it is appended asynchronously and may
+            // land after the next spawn of the same name)
+            let key = (frame.context_id, topic.to_string());
+            let source_id = frame
+                .meta
+                .as_ref()
+                .and_then(|meta| meta.get("source_id"))
+                .and_then(|v| v.as_str());
+            if compacted_frames
+                .get(&key)
+                .is_some_and(|kept| Some(kept.id.to_string().as_str()) == source_id)
             {
-                // a generator name is scoped to its context
-                compacted_frames.insert((frame.context_id, topic.to_string()), frame);
+                compacted_frames.insert(key, frame);
             }
+        } else if let Some(topic) = frame.topic.strip_suffix(".spawn") {
+            compacted_frames.insert((frame.context_id, topic.to_string()), frame);
         }
     }
 
